@@ -118,6 +118,13 @@ pub fn strata(tier: Tier) -> Vec<Stratum> {
             max_size: 5 + b,
         },
         Stratum {
+            name: "trace-operands",
+            params: ps(&[("a", Ty::Int), ("p", Ty::Bool)]),
+            ret: Ty::Bool,
+            prods: Prods { compare: true, arith: true, traces: true, trace_args: true, if_: true, ..Default::default() },
+            max_size: 5 + b,
+        },
+        Stratum {
             name: "pairs-boxes",
             params: ps(&[("bx", Ty::Adt("BoxInt")), ("a", Ty::Int)]),
             ret: Ty::Int,
